@@ -96,9 +96,9 @@ SingleLaw ==
 (* C01: the four spellings of one call agree (value or error kind, and the ticks of the operand) *)
 SpellingLaw ==
   (Done /\ FamSeq[pid].tag[1] = "core") =>
-     /\ \A i \in 1..4 : results[i].r.k = "none"
-     /\ \A i \in 6..8 : results[i] = results[5]
-     /\ results[9].r = [k |-> "value", v |-> MkList(<<MkSym("outer-helper"), MkSym("outer-ev")>>)]
+     /\ \A i \in 1..7 : results[i].r.k = "none"
+     /\ \A i \in 9..11 : results[i] = results[8]
+     /\ results[12].r = [k |-> "value", v |-> MkList(<<MkSym("outer-helper"), MkSym("outer-ev"), MkSym("outer-p1"), MkSym("outer-rest"), MkSym("outer-all")>>)]
 (* C08: the faulting form is stopped with an error of the corresponding kind in every calling
    context; the interpreter keeps exactly the effects completed before it and goes on *)
 FaultLaw ==
